@@ -411,7 +411,23 @@ fn check_recovery(ctx: &mut Ctx, ds: &DiskState, cfg: &WalConfig, exp: &Expect, 
     if let Some((kind, detail)) = viol {
         matched = None;
         let emb_only = img.as_ref().map(|i| emb_only_mismatch(&durable_part(i), exp.prefixes)).unwrap_or(None);
-        let class = if info.prev_torn {
+        // last complete record of the crashed log (real bitcode)
+        let last_is_eset = {
+            let (mut pos, mut last) = (0usize, None);
+            while pos + 8 <= ds.wal.len() {
+                let l = u32::from_le_bytes([ds.wal[pos], ds.wal[pos + 1], ds.wal[pos + 2], ds.wal[pos + 3]]) as usize;
+                if pos + 8 + l > ds.wal.len() {
+                    break;
+                }
+                last = bitcode::deserialize::<WalEntry>(&ds.wal[pos + 8..pos + 8 + l]).ok();
+                pos += 8 + l;
+            }
+            matches!(last, Some(WalEntry::EmbeddingSet { .. }))
+        };
+        let class = if emb_only.is_some() && last_is_eset {
+            // the log ends between the two records of one put_durable
+            "tensor_store.slab_router.put_durable/embedding_record_replayed_without_its_metadata_record".to_string()
+        } else if info.prev_torn && emb_only.is_none() {
             "tensor_store.wal.open/append_after_torn_tail".to_string()
         } else if info.rotated {
             "tensor_store.wal.rotate/acked_entries_not_replayed".to_string()
@@ -1147,6 +1163,10 @@ fn main() {
             vec![Op::Put("emb:c".into(), td("c"))],
             vec![Op::Put("z".into(), td("z"))],
         ];
+        run_chain(&mut ctx, &mut r, &cc, &eps);
+        // a put on an existing emb: key is two records (EmbeddingSet, MetadataSet): cut between them
+        let cc = ChainCfg { stream: "probe_torn_put", mode: SyncMode::Immediate, max_size: None, every_byte: false, random_cuts: 0, resume_full: true, compare_model: true };
+        let eps = vec![vec![Op::Put("emb:a".into(), tdv("one", 1.0, 384)), Op::Put("emb:a".into(), tdv("two", 2.0, 384))]];
         run_chain(&mut ctx, &mut r, &cc, &eps);
         // snapshot of 384-dim embeddings (tensor-train compressed) through a checkpoint
         let cc = ChainCfg { stream: "probe_ckpt_emb384", mode: SyncMode::Immediate, max_size: None, every_byte: false, random_cuts: 0, resume_full: true, compare_model: false };
